@@ -852,10 +852,567 @@ def translate_misc(out_hashes):
                          ns="Misc", hashes="see Generated/hashes.json") + "\n".join(texts) + "\nend Exponax.Gen.Misc\n"
 
 
+# ----------------------------------------------------------------------------
+# Steppers: the linear symbol of every stepper class, per stored mode
+# ----------------------------------------------------------------------------
+STEPPER_GLOBS = ["exponax/stepper/*.py", "exponax/stepper/generic/*.py", "exponax/stepper/reaction/*.py"]
+LINOP = "_build_linear_operator"
+DERIV_ARG = "derivative_operator"
+
+
+def _indent(lines, n):
+    return [" " * n + l for l in lines]
+
+
+class OpTr(FunTr):
+    """Per-mode translation of array-level code that builds a linear operator out of
+    `derivative_operator` (shape D × modes).  At one stored mode:
+
+      derivative_operator                        ↦ κ : List K          (length D)
+      array[D]-valued attribute / expression     ↦ List K              ('L')
+      array[D, D]-valued attribute / expression  ↦ List (List K)       ('M')
+      array[1, modes] (one channel)              ↦ K                   ('K')
+      array[C, modes] built by jnp.concatenate   ↦ List K of channels  ('C')
+
+    Vocabulary (everything else raises TranslateError):
+      L ** n → map npow;  K * L, L * K → map;  L[:, None] * L[None, :] → outer product;
+      jnp.sum(L, axis=0, keepdims=True) → sumList;  jnp.einsum("i,i...->...", L, L),
+      jnp.einsum("ij,ij...->...", M, M) → sumList ∘ zipWith;  x[None, ...] → x;
+      sum(<K> for i, c in enumerate(L)) → sumList ∘ map;  K * jnp.ones(N) → List.replicate;
+      jnp.ones((1, *derivative_operator.shape[1:]), …) → 1;  jnp.concatenate([K, …], axis=0) → [K, …];
+      calls of the translated _spectral helpers;  self.<attr> → parameter typed by the class annotation;
+      + - * ** (static Nat exponent), unary minus on scalars, local assignment → let,
+      `if <cond>: raise …` → recorded guard,  `if <cond>: return …`/`if self.flag: … else: …` → if-then-else.
+    """
+
+    def __init__(self, owner, self_attrs, helpers):
+        super().__init__(None, {}, self_attrs=self_attrs, helpers=helpers)
+        self.owner = owner
+        self.guards = []
+
+    # -- types -------------------------------------------------------------------
+    def lean_ty(self, ty):
+        if ty == "M":
+            return "List (List K)"
+        if ty == "C":
+            return "List K"
+        if ty == "B":
+            return "Bool"
+        return super().lean_ty(ty)
+
+    def bind(self, name, v: V):
+        if v.ty in ("M", "C"):
+            self.lines.append(f"let {name} := {v.lean}")
+            self.env[name] = v.ty
+            return
+        if v.ty in ("COL", "ROW", "B"):
+            raise TranslateError(f"{self.owner}: cannot bind {name} of kind {v.ty}")
+        super().bind(name, v)
+
+    def static_nat(self, v: V, what):
+        if v.ty != "N":
+            raise TranslateError(f"{self.owner}: {what} must be a static natural number, got {v.ty}: {v.lean}")
+        return v
+
+    # -- expressions -------------------------------------------------------------
+    def expr(self, n) -> V:
+        if isinstance(n, ast.UnaryOp):
+            v = self.expr(n.operand)
+            if isinstance(n.op, ast.USub) and v.ty == "K":
+                self.use("Neg")
+                return V(f"-{v.p()}", "K")
+            if isinstance(n.op, ast.USub) and v.ty in ("N", "Z"):
+                return super().expr(n)
+            raise TranslateError(f"{self.owner}: unsupported unary operation on {v.ty}: {ast.unparse(n)[:60]}")
+        if isinstance(n, (ast.Tuple, ast.List)):
+            raise TranslateError(f"{self.owner}: bare tuple/list expression {ast.unparse(n)[:60]}")
+        return super().expr(n)
+
+    def attribute(self, n) -> V:
+        if isinstance(n.value, ast.Name) and n.value.id == "self":
+            if n.attr in self.self_attrs:
+                ty = self.self_attrs[n.attr]
+                if ty is None:
+                    raise TranslateError(f"{self.owner}: self.{n.attr} has an annotation outside the vocabulary")
+                self.params.setdefault(n.attr, ty)
+                return V(n.attr, ty, atom=True)
+            raise TranslateError(f"{self.owner}: unknown attribute self.{n.attr}")
+        raise TranslateError(f"{self.owner}: unsupported attribute {ast.unparse(n)[:60]}")
+
+    def binop(self, n) -> V:
+        a = self.expr(n.left)
+        b = self.expr(n.right)
+        op = n.op
+        special = ("L", "M", "C", "COL", "ROW", "B")
+        if a.ty not in special and b.ty not in special:
+            if isinstance(op, ast.Pow):
+                if b.ty != "N":
+                    raise TranslateError(f"{self.owner}: exponent is not a static natural: {ast.unparse(n)[:60]}")
+                return self.power(a, b, n.right)
+            if not isinstance(op, (ast.Add, ast.Sub, ast.Mult)):
+                raise TranslateError(f"{self.owner}: operator outside the vocabulary: {ast.unparse(n)[:60]}")
+            return super().binop(n)
+        if isinstance(op, ast.Pow) and a.ty == "L":
+            e = self.static_nat(b, "exponent")
+            self.use("Mul", "One")
+            return V(f"List.map (fun x => npow x {e.p()}) {a.p()}", "L")
+        if isinstance(op, ast.Mult):
+            if a.ty == "COL" and b.ty == "ROW":
+                self.use("Mul")
+                return V(f"List.map (fun a => List.map (fun b => a * b) {b.p()}) {a.p()}", "M")
+            ones_a, ones_b = getattr(a, "ones", None), getattr(b, "ones", None)
+            if ones_b is not None and a.ty in ("K", "N", "Z"):
+                return V(f"List.replicate {ones_b} {self.toK(a).p()}", "L")
+            if ones_a is not None and b.ty in ("K", "N", "Z"):
+                return V(f"List.replicate {ones_a} {self.toK(b).p()}", "L")
+            if a.ty in ("K", "N", "Z") and b.ty == "L":
+                self.use("Mul")
+                return V(f"List.map (fun x => {self.toK(a).p()} * x) {b.p()}", "L")
+            if a.ty == "L" and b.ty in ("K", "N", "Z"):
+                self.use("Mul")
+                return V(f"List.map (fun x => x * {self.toK(b).p()}) {a.p()}", "L")
+        raise TranslateError(f"{self.owner}: unsupported array operation ({a.ty} {type(op).__name__} {b.ty}): "
+                             f"{ast.unparse(n)[:60]}")
+
+    def subscript(self, n) -> V:
+        idx = n.slice
+        if isinstance(idx, ast.Tuple):
+            v = self.expr(n.value)
+            pat = [ast.unparse(e) for e in idx.elts]
+            if pat == [":", "None"] and v.ty == "L":
+                return V(v.lean, "COL", atom=v.atom)
+            if pat == ["None", ":"] and v.ty == "L":
+                return V(v.lean, "ROW", atom=v.atom)
+            if pat == ["None", "..."] and v.ty == "K":
+                return v  # singleton channel axis
+            raise TranslateError(f"{self.owner}: unsupported indexing {ast.unparse(n)[:60]} on {v.ty}")
+        return super().subscript(n)
+
+    def kwargs(self, n, allowed):
+        kw = {}
+        for k in n.keywords:
+            if k.arg not in allowed:
+                raise TranslateError(f"{self.owner}: unexpected keyword {k.arg} in {ast.unparse(n)[:60]}")
+            kw[k.arg] = k.value
+        return kw
+
+    def call(self, n) -> V:
+        fn = ast.unparse(n.func)
+        if fn == "jnp.sum":
+            kw = self.kwargs(n, ("axis", "keepdims"))
+            if len(n.args) != 1 or ast.unparse(kw.get("axis", ast.Constant(None))) != "0" \
+                    or ast.unparse(kw.get("keepdims", ast.Constant(None))) != "True":
+                raise TranslateError(f"{self.owner}: jnp.sum must be (x, axis=0, keepdims=True): {ast.unparse(n)[:80]}")
+            v = self.expr(n.args[0])
+            if v.ty != "L":
+                raise TranslateError(f"{self.owner}: jnp.sum over axis 0 of a non-vector ({v.ty})")
+            self.use("Add", "Zero")
+            return V(f"sumList {v.p()}", "K")
+        if fn == "jnp.einsum":
+            if n.keywords or len(n.args) != 3 or not isinstance(n.args[0], ast.Constant):
+                raise TranslateError(f"{self.owner}: unsupported einsum {ast.unparse(n)[:80]}")
+            spec = n.args[0].value
+            a, b = self.expr(n.args[1]), self.expr(n.args[2])
+            self.use("Add", "Zero", "Mul")
+            if spec == "i,i...->..." and a.ty == "L" and b.ty == "L":
+                return V(f"sumList (List.zipWith (fun a b => a * b) {a.p()} {b.p()})", "K")
+            if spec == "ij,ij...->..." and a.ty == "M" and b.ty == "M":
+                return V("sumList (List.zipWith (fun r s => sumList (List.zipWith (fun a b => a * b) r s)) "
+                         f"{a.p()} {b.p()})", "K")
+            raise TranslateError(f"{self.owner}: unsupported einsum {spec!r} on ({a.ty}, {b.ty})")
+        if fn == "jnp.ones":
+            if len(n.args) == 1 and ast.unparse(n.args[0]) == f"(1, *{DERIV_ARG}.shape[1:])" \
+                    and all(k.arg == "dtype" for k in n.keywords):
+                self.use("One")
+                return V("(1 : K)", "K", atom=True)
+            if len(n.args) == 1 and not n.keywords:
+                m = self.static_nat(self.expr(n.args[0]), "jnp.ones length")
+                self.use("One")
+                v = V(f"List.replicate {m.p()} (1 : K)", "L")
+                v.ones = m.p()
+                return v
+            raise TranslateError(f"{self.owner}: unsupported jnp.ones {ast.unparse(n)[:80]}")
+        if fn == "jnp.concatenate":
+            kw = self.kwargs(n, ("axis",))
+            if len(n.args) != 1 or not isinstance(n.args[0], (ast.List, ast.Tuple)) \
+                    or ast.unparse(kw.get("axis", ast.Constant(0))) != "0":
+                raise TranslateError(f"{self.owner}: unsupported concatenate {ast.unparse(n)[:80]}")
+            items = [self.expr(e) for e in n.args[0].elts]
+            if not items or any(i.ty != "K" for i in items):
+                raise TranslateError(f"{self.owner}: concatenate of non-single-channel operands")
+            return V("[" + ", ".join(i.lean for i in items) + "]", "C", atom=True)
+        if fn == "sum" and len(n.args) == 1 and not n.keywords and isinstance(n.args[0], ast.GeneratorExp):
+            v = self.comprehension(n.args[0])
+            self.use("Add", "Zero")
+            return V(f"sumList {v.p()}", "K")
+        if fn in self.helpers:
+            lean_name, plist, ret_ty, cls = self.helpers[fn]
+            argv = {}
+            if len(n.args) > len(plist):
+                raise TranslateError(f"{self.owner}: too many arguments in {ast.unparse(n)[:60]}")
+            for i, a in enumerate(n.args):
+                if plist[i][3]:
+                    raise TranslateError(f"{self.owner}: keyword-only argument passed positionally in {fn}")
+                argv[plist[i][0]] = self.expr(a)
+            for kw in n.keywords:
+                if kw.arg not in [p[0] for p in plist] or kw.arg in argv:
+                    raise TranslateError(f"{self.owner}: bad keyword {kw.arg} in call of {fn}")
+                argv[kw.arg] = self.expr(kw.value)
+            parts = []
+            for pn, pty, default, _ in plist:
+                if pn in argv:
+                    a = argv[pn]
+                elif default is not None:
+                    a = self.expr(default)
+                else:
+                    raise TranslateError(f"{self.owner}: missing argument {pn} in call of {fn}")
+                if pty == "K" and a.ty in ("N", "Z"):
+                    a = self.toK(a)
+                if a.ty != pty:
+                    raise TranslateError(f"{self.owner}: argument {pn} of {fn} has kind {a.ty}, expected {pty}")
+                parts.append(a.p())
+            self.used.update(cls)
+            return V(f"{lean_name} " + " ".join(parts), ret_ty)
+        raise TranslateError(f"{self.owner}: call outside the vocabulary: {ast.unparse(n)[:80]}")
+
+    def comprehension(self, n) -> V:
+        g = n.generators[0] if len(n.generators) == 1 else None
+        if g is None or g.ifs or not (isinstance(g.iter, ast.Call) and ast.unparse(g.iter.func) == "enumerate"
+                                      and len(g.iter.args) == 1 and isinstance(g.target, ast.Tuple)
+                                      and len(g.target.elts) == 2
+                                      and all(isinstance(e, ast.Name) for e in g.target.elts)):
+            raise TranslateError(f"{self.owner}: unsupported comprehension {ast.unparse(n)[:80]}")
+        v = super().comprehension(n)
+        return v
+
+    # -- conditions --------------------------------------------------------------
+    def cond(self, t) -> str:
+        if isinstance(t, ast.UnaryOp) and isinstance(t.op, ast.Not):
+            return f"¬ ({self.cond(t.operand)})"
+        if isinstance(t, ast.Compare) and len(t.ops) == 1 and isinstance(t.ops[0], (ast.Eq, ast.NotEq)):
+            a, b = self.expr(t.left), self.expr(t.comparators[0])
+            if a.ty in ("N", "Z") and b.ty in ("N", "Z"):
+                if a.ty != b.ty:
+                    a, b = self.toZ(a), self.toZ(b)
+                return f"{a.p()} {'=' if isinstance(t.ops[0], ast.Eq) else '≠'} {b.p()}"
+            raise TranslateError(f"{self.owner}: comparison of non-static values: {ast.unparse(t)[:60]}")
+        v = self.expr(t)
+        if v.ty == "B":
+            return f"{v.p()} = true"
+        raise TranslateError(f"{self.owner}: unsupported condition {ast.unparse(t)[:60]}")
+
+    # -- blocks ------------------------------------------------------------------
+    @staticmethod
+    def assigned_names(stmts):
+        out = []
+        for s in stmts:
+            if isinstance(s, ast.Assign) and len(s.targets) == 1 and isinstance(s.targets[0], ast.Name):
+                if s.targets[0].id not in out:
+                    out.append(s.targets[0].id)
+        return out
+
+    def block(self, stmts):
+        """translate a statement list that ends in `return`; gives (lines of a Lean term, kind)"""
+        saved_lines = self.lines
+        self.lines = []
+        try:
+            for i, s in enumerate(stmts):
+                if isinstance(s, ast.Expr) and isinstance(s.value, ast.Constant) and isinstance(s.value.value, str):
+                    continue  # docstring
+                if isinstance(s, ast.Return):
+                    if s.value is None:
+                        raise TranslateError(f"{self.owner}: bare return")
+                    v = self.expr(s.value)
+                    if v.ty in ("COL", "ROW", "B"):
+                        raise TranslateError(f"{self.owner}: cannot return a value of kind {v.ty}")
+                    if i != len(stmts) - 1:
+                        raise TranslateError(f"{self.owner}: statements after return")
+                    return self.lines + [v.lean], v.ty
+                if isinstance(s, ast.Assign):
+                    if len(s.targets) != 1 or not isinstance(s.targets[0], ast.Name):
+                        raise TranslateError(f"{self.owner}: unsupported assignment {ast.unparse(s)[:60]}")
+                    self.bind(s.targets[0].id, self.expr(s.value))
+                    continue
+                if isinstance(s, ast.If):
+                    body_raises = len(s.body) == 1 and isinstance(s.body[0], ast.Raise)
+                    if body_raises and not s.orelse:
+                        exc = s.body[0].exc
+                        name = ast.unparse(exc.func) if isinstance(exc, ast.Call) else ast.unparse(exc) if exc else "?"
+                        self.guards.append(f"{name} if {ast.unparse(s.test)}")
+                        continue
+                    test = self.cond(s.test)
+                    then_ret = bool(s.body) and isinstance(s.body[-1], ast.Return)
+                    else_ret = bool(s.orelse) and isinstance(s.orelse[-1], ast.Return)
+                    if then_ret and (else_ret or not s.orelse):
+                        rest = s.orelse if s.orelse else stmts[i + 1:]
+                        if s.orelse and i != len(stmts) - 1:
+                            raise TranslateError(f"{self.owner}: statements after a returning if/else")
+                        env0 = dict(self.env)
+                        tl, tty = self.block(s.body)
+                        self.env = dict(env0)
+                        el, ety = self.block(rest)
+                        self.env = env0
+                        if tty != ety:
+                            raise TranslateError(f"{self.owner}: branches return different kinds ({tty} / {ety})")
+                        return (self.lines + [f"if {test} then"] + _indent(tl, 2) + ["else"] + _indent(el, 2)), tty
+                    if then_ret or else_ret:
+                        raise TranslateError(f"{self.owner}: only one branch of an if/else returns")
+                    if not s.orelse:
+                        raise TranslateError(f"{self.owner}: `if` without else that neither raises nor returns")
+                    self.branch(test, s)
+                    continue
+                raise TranslateError(f"{self.owner}: unsupported statement {type(s).__name__}: {ast.unparse(s)[:60]}")
+            raise TranslateError(f"{self.owner}: block does not end in return")
+        finally:
+            self.lines = saved_lines
+
+    def branch_lines(self, stmts):
+        saved_lines = self.lines
+        self.lines = []
+        try:
+            for s in stmts:
+                if not (isinstance(s, ast.Assign) and len(s.targets) == 1 and isinstance(s.targets[0], ast.Name)):
+                    raise TranslateError(f"{self.owner}: only plain assignments are supported inside flag "
+                                         f"branches: {ast.unparse(s)[:60]}")
+                self.bind(s.targets[0].id, self.expr(s.value))
+            return self.lines
+        finally:
+            self.lines = saved_lines
+
+    def branch(self, test, s):
+        env0 = dict(self.env)
+        tl = self.branch_lines(s.body)
+        env1 = self.env
+        self.env = dict(env0)
+        el = self.branch_lines(s.orelse)
+        env2 = self.env
+        self.env = dict(env0)
+        a1, a2 = self.assigned_names(s.body), self.assigned_names(s.orelse)
+        common = [x for x in a1 if x in a2]
+        for x in a1 + a2:
+            if x not in common and x in env0:
+                raise TranslateError(f"{self.owner}: {x} is reassigned in only one branch of `if {ast.unparse(s.test)}`")
+        if not common:
+            raise TranslateError(f"{self.owner}: the branches of `if {ast.unparse(s.test)}` define no common name")
+        for x in common:
+            if env1[x] != env2[x]:
+                raise TranslateError(f"{self.owner}: {x} has different kinds in the two branches")
+            self.lines.append(f"let {x} := if {test} then (")
+            self.lines += _indent(tl + [x + ")"], 4)
+            self.lines.append("  else (")
+            self.lines += _indent(el + [x + ")"], 4)
+            self.env[x] = env1[x]
+        # names defined in one branch only stay unbound: a later use raises `unbound name`
+
+
+def ann_kind(ann):
+    """kind of a dataclass field from its annotation (None: outside the vocabulary)"""
+    s = ast.unparse(ann)
+    if s == "float":
+        return "K"
+    if s == "bool":
+        return "B"
+    if s == "int":
+        return "N"
+    if s == "tuple[float, ...]":
+        return "L"
+    m = _re.fullmatch(r"tuple\[float(, float)*\]", s)
+    if m:
+        return ("T", s.count("float"))
+    if isinstance(ann, ast.Subscript) and ast.unparse(ann.value) in ("Float", "Complex", "Inexact") \
+            and isinstance(ann.slice, ast.Tuple) and len(ann.slice.elts) == 2 \
+            and isinstance(ann.slice.elts[1], ast.Constant) and isinstance(ann.slice.elts[1].value, str):
+        shape = ann.slice.elts[1].value.split()
+        if shape == ["D"]:
+            return "L"
+        if shape == ["D", "D"]:
+            return "M"
+        if len(shape) >= 2 and shape[0] == "1" and shape[1] == "...":
+            return "K"  # one channel, one value per mode
+    return None
+
+
+def class_fields(cls):
+    return [(m.target.id, m.annotation, m) for m in cls.body
+            if isinstance(m, ast.AnnAssign) and isinstance(m.target, ast.Name)]
+
+
+def emit_block_def(name, params, tr: OpTr, lines, ret_ty, comments=()):
+    binders = " ".join(f"({pn} : {tr.lean_ty(pty)})" for pn, pty in params)
+    head = f"def {name} {{K : Type}} {inst_binders(tr.used)} {binders} : {tr.lean_ty(ret_ty)} :="
+    head = " ".join(head.split())
+    return "".join(f"-- {c}\n" for c in comments) + head + "\n" + "\n".join(_indent(lines, 2)) + "\n"
+
+
+def translate_steppers(out_hashes):
+    import glob
+    texts = []
+    # ---- exponax/_spectral.py helpers -------------------------------------------
+    path = os.path.join(REPO, "exponax/_spectral.py")
+    src = open(path).read()
+    tree = ast.parse(src)
+    helpers = {}
+    spectral = {
+        # python name: (lean name, kinds of the parameters)
+        "build_laplace_operator": ("laplace_op", {DERIV_ARG: "L", "order": "N"}),
+        "build_gradient_inner_product_operator": ("grad_inner", {DERIV_ARG: "L", "velocity": "L", "order": "N"}),
+    }
+    for pyname, (lean_name, kinds) in spectral.items():
+        fn = find_func(tree.body, pyname)
+        out_hashes[f"_spectral.py::{pyname}"] = src_hash(fn, src)
+        if fn.args.vararg or fn.args.kwarg or fn.args.posonlyargs:
+            raise TranslateError(f"{pyname}: unsupported signature")
+        plist = []
+        pos = list(fn.args.args)
+        pos_defaults = [None] * (len(pos) - len(fn.args.defaults)) + list(fn.args.defaults)
+        for a, d in zip(pos, pos_defaults):
+            plist.append((a.arg, d, False))
+        for a, d in zip(fn.args.kwonlyargs, fn.args.kw_defaults):
+            plist.append((a.arg, d, True))
+        if [p[0] for p in plist] != list(kinds):
+            raise TranslateError(f"{pyname}: parameters {[p[0] for p in plist]} differ from the expected {list(kinds)}")
+        tr = OpTr(pyname, {}, helpers)
+        params = []
+        for pn, d, kwonly in plist:
+            if d is not None and not (isinstance(d, ast.Constant) and isinstance(d.value, int)
+                                      and not isinstance(d.value, bool) and d.value >= 0):
+                raise TranslateError(f"{pyname}: default of {pn} is not a natural number literal")
+            lean_pn = "κ" if pn == DERIV_ARG else pn
+            tr.env[pn] = V(lean_pn, kinds[pn], atom=True)
+            params.append((lean_pn, kinds[pn]))
+        lines, rty = tr.block(fn.body)
+        if rty != "K":
+            raise TranslateError(f"{pyname}: result is not one channel")
+        comments = [f"{pyname}  (exponax/_spectral.py), at one stored mode; κ = {DERIV_ARG}[:, mode]"]
+        comments += [f"defaults: " + ", ".join(f"{pn}={ast.unparse(d)}" for pn, d, _ in plist if d is not None)]
+        comments += [f"guard (not modelled): raise {g}" for g in tr.guards]
+        texts.append(emit_block_def(lean_name, params, tr, lines, rty, comments))
+        helpers[pyname] = (lean_name, [(pn, kinds[pn], d, kwonly) for pn, d, kwonly in plist], rty, set(tr.used))
+
+    # ---- BaseStepper fields (inherited attributes) -----------------------------
+    bpath = os.path.join(REPO, "exponax/_base_stepper.py")
+    bsrc = open(bpath).read()
+    bcls = find_class(ast.parse(bsrc), "BaseStepper")
+    base_fields = class_fields(bcls)
+    out_hashes["_base_stepper.py::BaseStepper.fields"] = hashlib.sha256(
+        "\n".join(ast.get_source_segment(bsrc, m) or "" for _, _, m in base_fields).encode()).hexdigest()[:16]
+
+    # ---- every class with its own _build_linear_operator ---------------------------
+    files = []
+    for g in STEPPER_GLOBS:
+        files += sorted(glob.glob(os.path.join(REPO, g)))
+    if not files:
+        raise TranslateError("no stepper source files found")
+    classes = {}   # name -> (relative file, ClassDef, source)
+    for path in files:
+        src = open(path).read()
+        tree = ast.parse(src)
+        rel = os.path.relpath(path, os.path.join(REPO, "exponax"))
+        for c in ast.walk(tree):
+            if isinstance(c, ast.ClassDef):
+                if c.name in classes:
+                    raise TranslateError(f"class {c.name} defined twice ({classes[c.name][0]}, {rel})")
+                classes[c.name] = (rel, c, src)
+
+    def own_method(c):
+        ms = [m for m in c.body if isinstance(m, (ast.FunctionDef, ast.AsyncFunctionDef)) and m.name == LINOP]
+        if len(ms) > 1:
+            raise TranslateError(f"{c.name}: {LINOP} defined twice")
+        return ms[0] if ms else None
+
+    def provider(name, seen=()):
+        """the class whose _build_linear_operator `name` uses (None: not a stepper)"""
+        if name not in classes or name in seen:
+            return None
+        c = classes[name][1]
+        if own_method(c) is not None:
+            return name
+        for b in c.bases:
+            p = provider(ast.unparse(b).split(".")[-1], seen + (name,))
+            if p is not None:
+                return p
+        return None
+
+    def is_stepper(name, seen=()):
+        if name == "BaseStepper":
+            return True
+        if name not in classes or name in seen:
+            return False
+        return any(is_stepper(ast.unparse(b).split(".")[-1], seen + (name,)) for b in classes[name][1].bases)
+
+    generated = []
+    inherited = []
+    for name, (rel, c, src) in classes.items():
+        m = own_method(c)
+        if m is None:
+            if is_stepper(name):
+                p = provider(name)
+                if p is None:
+                    raise TranslateError(f"stepper class {name} ({rel}) has no {LINOP} (own or inherited)")
+                inherited.append((name, p))
+            continue
+        if not isinstance(m, ast.FunctionDef) or m.decorator_list:
+            raise TranslateError(f"{name}.{LINOP}: decorated / async method")
+        out_hashes[f"{rel}::{name}.{LINOP}"] = src_hash(m, src)
+        argnames = [a.arg for a in m.args.args]
+        if argnames != ["self", DERIV_ARG] or m.args.kwonlyargs or m.args.vararg or m.args.kwarg or m.args.defaults:
+            raise TranslateError(f"{name}.{LINOP}: unexpected signature ({', '.join(argnames)})")
+        # attribute kinds: own annotations, then those of the ancestors inside the scanned files, then BaseStepper
+        attrs, order = {}, []
+        chain, todo = [], [name]
+        while todo:
+            cn = todo.pop(0)
+            if cn in chain or cn not in classes:
+                continue
+            chain.append(cn)
+            todo += [ast.unparse(b).split(".")[-1] for b in classes[cn][1].bases]
+        field_src = []
+        for cn in chain:
+            for an, ann, node in class_fields(classes[cn][1]):
+                if an not in attrs:
+                    attrs[an] = ann_kind(ann)
+                    order.append(an)
+                    field_src.append(ast.get_source_segment(classes[cn][2], node) or "")
+        for an, ann, node in base_fields:
+            if an not in attrs:
+                attrs[an] = ann_kind(ann)
+                order.append(an)
+        out_hashes[f"{rel}::{name}.fields"] = hashlib.sha256("\n".join(field_src).encode()).hexdigest()[:16]
+        tr = OpTr(f"{name}.{LINOP}", attrs, helpers)
+        tr.env[DERIV_ARG] = V("κ", "L", atom=True)
+        lines, rty = tr.block(m.body)
+        if rty not in ("K", "C"):
+            raise TranslateError(f"{name}.{LINOP}: result of kind {rty} is not a (list of) channel(s)")
+        used_attrs = [a for a in order if a in tr.params]
+        params = [("κ", "L")] + [(a, attrs[a]) for a in used_attrs]
+        comments = [f"{name}.{LINOP}  (exponax/{rel}), at one stored mode"
+                    + ("; one entry per channel" if rty == "C" else "")]
+        comments.append("parameters: κ " + " ".join(f"self.{a}" for a in used_attrs))
+        comments += [f"guard (not modelled): raise {g}" for g in tr.guards]
+        texts.append(emit_block_def(f"{name}_linear_operator", params, tr, lines, rty, comments))
+        generated.append(name)
+    if not generated:
+        raise TranslateError(f"no class defines {LINOP}")
+    inh = "".join(f"-- {n} inherits {LINOP} from {p}: {p}_linear_operator\n" for n, p in sorted(inherited))
+    q = lambda x: '"' + x + '"'
+    tail = (f"/- {len(generated)} classes define {LINOP}: {', '.join(generated)} -/\n"
+            + (inh if inh else "")
+            + f"\n/-- the classes with their own `{LINOP}` (sorted); `Proofs/StepperSymbols.lean` pins this list, so a new\n"
+              "    class without a theorem breaks the build -/\n"
+            + "def generated_classes : List String :=\n  [" + ", ".join(q(n) for n in sorted(generated)) + "]\n"
+            + f"\n/-- (class, class whose `{LINOP}` it inherits) -/\n"
+            + "def inherited_classes : List (String × String) :=\n  ["
+            + ", ".join(f"({q(n)}, {q(p_)})" for n, p_ in sorted(inherited)) + "]\n")
+    return HEADER.format(src="exponax/_spectral.py, exponax/stepper/**/*.py (_build_linear_operator)",
+                         ns="Steppers", hashes="see Generated/hashes.json") + "\n".join(texts) + "\n" + tail \
+        + "\nend Exponax.Gen.Steppers\n"
+
+
 TARGETS = {
     "Etdrk": translate_etdrk,
     "Convert": translate_convert,
     "Misc": translate_misc,
+    "Steppers": translate_steppers,
 }
 
 
